@@ -736,7 +736,7 @@ def process_results(ctx, cases, results, what='numpy'):
 
 def run(ctx):
     if ctx.quick():
-        cases = build_cases(ctx, 26, 7, 4)
+        cases = build_cases(ctx, 32, 8, 5)
     else:
         cases = build_cases(ctx, 420, 120, 60)
     pool = ImplPool()
